@@ -45,6 +45,9 @@ type Program struct {
 	live     map[*ssa.Function]bool
 
 	fileCache map[string]*ast.File
+
+	idOnce sync.Once
+	ids    map[string]bool
 }
 
 // Load loads repo with the given build tags (comma separated, may be empty).
@@ -169,6 +172,30 @@ func relPkg(fn *ssa.Function) string {
 // Func resolves "name" or "(*T).name" / "T.name" in module package rel.
 // Anonymous functions are addressed as "outer$1".
 func (p *Program) Func(rel, name string) *ssa.Function {
+	if fn := p.funcExact(rel, name); fn != nil {
+		recordFuncAnchor(rel, name, fn)
+		return fn
+	}
+	if i := strings.Index(name, "$"); i >= 0 {
+		// closure of a renamed function
+		if base := p.reidentifyFunc(rel, name[:i]); base != nil {
+			fn := base
+			for _, a := range strings.Split(name[i+1:], "$") {
+				idx := 0
+				fmt.Sscanf(a, "%d", &idx)
+				if idx < 1 || idx > len(fn.AnonFuncs) {
+					return nil
+				}
+				fn = fn.AnonFuncs[idx-1]
+			}
+			return fn
+		}
+		return nil
+	}
+	return p.reidentifyFunc(rel, name)
+}
+
+func (p *Program) funcExact(rel, name string) *ssa.Function {
 	sp := p.Pkg(rel)
 	if sp == nil {
 		return nil
@@ -251,10 +278,11 @@ func (p *Program) Field(rel, typ, field string) *types.Var {
 	}
 	for i := 0; i < st.NumFields(); i++ {
 		if st.Field(i).Name() == field {
+			recordFieldAnchor(rel, typ, field, st.Field(i))
 			return st.Field(i)
 		}
 	}
-	return nil
+	return p.reidentifyField(rel, typ, field, st)
 }
 
 // Pos renders a position relative to the repository root.
@@ -336,6 +364,16 @@ func valuePos(v ssa.Value) token.Pos {
 
 // FuncName gives a stable, human-readable name "pkg.(*T).m" relative to the module.
 func FuncName(fn *ssa.Function) string {
+	if fn == nil {
+		return "<nil>"
+	}
+	if n := referenceName(fn); n != "" {
+		return n // a renamed anchor keeps the name the rules (and the known-findings keys) use
+	}
+	return actualFuncName(fn)
+}
+
+func actualFuncName(fn *ssa.Function) string {
 	if fn == nil {
 		return "<nil>"
 	}
